@@ -282,7 +282,20 @@ func vmGen(progs []vmProg, families map[string]string) (map[string]string, error
 }
 
 func vmJobs(tier, fam, fn string, caplen int, only func(vmProg) bool) []JobDef {
-	return vmJobsOf(vmCorpus(), tier, fam, fn, caplen, only, []string{"vm/vmlib.go", "vm/c04.go"})
+	corpus := vmCorpus()
+	if tier == "thorough" {
+		// the thorough tier also runs the quick program shapes of C01's
+		// grammar (operators, scoping, builtins, dimensions, del, decorators)
+		for _, s := range c01Shapes() {
+			// (the two-key shape makes the history check compare label keys
+			// holding two formatted numbers of different layouts: not decidable
+			// by the string model, left to C01/C04)
+			if s.Quick && !(fam == "VM05" && s.Name == "dim-two-keys-expr") {
+				corpus = append(corpus, vmProg{Name: "g_" + strings.ReplaceAll(s.Name, "-", "_"), Src: s.Src})
+			}
+		}
+	}
+	return vmJobsOf(corpus, tier, fam, fn, caplen, only, []string{"vm/vmlib.go", "vm/c04.go"})
 }
 
 func vmJobsOf(corpus []vmProg, tier, fam, fn string, caplen int, only func(vmProg) bool, harness []string) []JobDef {
